@@ -1,0 +1,110 @@
+//go:build verif
+
+// Contracts for package grpc, read by /verif's gcv (comment-only file).
+package grpc
+
+//@ type interceptorConfig
+//@ type streamInterceptorConfig
+//@ type ssRecvWrapper
+//@   immutable: ServerStream, info, cfg
+
+// A limit-exceeded classifier returns a non-nil error (its message is sent to the peer).
+//@ func grpc.interceptorConfig.limitExceededResponseClassifier params ctx, method, req, l
+//@   ensures err_nonnil: ret2 != nil
+//@ func grpc.streamInterceptorConfig.recvLimitExceededResponseClassifier params ctx, method, req, l
+//@   ensures err_nonnil: ret2 != nil
+//@ func grpc.streamInterceptorConfig.sendLimitExceededResponseClassifier params ctx, method, req, l
+//@   ensures err_nonnil: ret2 != nil
+
+//@ define unaryCfgOK(cfg *grpc.interceptorConfig) bool = cfg != nil && cfg.limiter != nil && cfg.limitExceededResponseClassifier != nil && cfg.serverResponseClassifer != nil && cfg.clientResponseClassifer != nil
+
+//@ func UnaryServerInterceptor$1
+//@   requires cfg: unaryCfgOK(cfg) && info != nil && handler != nil
+//@   ensures[C14] acquires_first: ncalls("core.Limiter.Acquire") == 1 && callrecv("core.Limiter.Acquire", 0) == cfg.limiter && callarg("core.Limiter.Acquire", 0, 0) == ctx
+//@   ensures[C14] refused_runs_nothing: !callres("core.Limiter.Acquire", 0, 1) ==> ncalls("funcvalue:param:google.golang.org/grpc.UnaryHandler:handler") == 0 && ncalls("core.Listener.OnSuccess") == 0 && ncalls("core.Listener.OnIgnore") == 0 && ncalls("core.Listener.OnDropped") == 0 && ncalls("funcvalue:grpc.interceptorConfig.serverResponseClassifer") == 0
+//@   ensures[C14] refused_status: !callres("core.Limiter.Acquire", 0, 1) ==> ncalls("funcvalue:grpc.interceptorConfig.limitExceededResponseClassifier") == 1 && callarg("funcvalue:grpc.interceptorConfig.limitExceededResponseClassifier", 0, 0) == ctx && callarg("funcvalue:grpc.interceptorConfig.limitExceededResponseClassifier", 0, 1) == info.FullMethod && callarg("funcvalue:grpc.interceptorConfig.limitExceededResponseClassifier", 0, 2) == req && callarg("funcvalue:grpc.interceptorConfig.limitExceededResponseClassifier", 0, 3) == cfg.limiter && ncalls("status.Error") == 1 && callarg("status.Error", 0, 0) == callres("funcvalue:grpc.interceptorConfig.limitExceededResponseClassifier", 0, 1) && ret1 == callres("status.Error", 0, 0) && ret0 == callres("funcvalue:grpc.interceptorConfig.limitExceededResponseClassifier", 0, 0)
+//@   ensures[C14] granted_runs_handler_once: callres("core.Limiter.Acquire", 0, 1) ==> ncalls("funcvalue:param:google.golang.org/grpc.UnaryHandler:handler") == 1 && callarg("funcvalue:param:google.golang.org/grpc.UnaryHandler:handler", 0, 0) == ctx && callarg("funcvalue:param:google.golang.org/grpc.UnaryHandler:handler", 0, 1) == req && callpos("core.Limiter.Acquire", 0) < callpos("funcvalue:param:google.golang.org/grpc.UnaryHandler:handler", 0) && ncalls("funcvalue:grpc.interceptorConfig.limitExceededResponseClassifier") == 0
+//@   ensures[C14] result_unchanged: callres("core.Limiter.Acquire", 0, 1) ==> ret0 == callres("funcvalue:param:google.golang.org/grpc.UnaryHandler:handler", 0, 0) && ret1 == callres("funcvalue:param:google.golang.org/grpc.UnaryHandler:handler", 0, 1)
+//@   ensures[C14] classified_by_server_classifier: callres("core.Limiter.Acquire", 0, 1) ==> ncalls("funcvalue:grpc.interceptorConfig.serverResponseClassifer") == 1 && callarg("funcvalue:grpc.interceptorConfig.serverResponseClassifer", 0, 0) == ctx && callarg("funcvalue:grpc.interceptorConfig.serverResponseClassifer", 0, 1) == req && callarg("funcvalue:grpc.interceptorConfig.serverResponseClassifer", 0, 2) == info && callarg("funcvalue:grpc.interceptorConfig.serverResponseClassifer", 0, 3) == ret0 && callarg("funcvalue:grpc.interceptorConfig.serverResponseClassifer", 0, 4) == ret1
+//@   ensures[C14] completed_exactly_once_as_classified: callres("core.Limiter.Acquire", 0, 1) && 0 <= callres("funcvalue:grpc.interceptorConfig.serverResponseClassifer", 0, 0) && callres("funcvalue:grpc.interceptorConfig.serverResponseClassifer", 0, 0) <= 2 ==> ncalls("core.Listener.OnSuccess") + ncalls("core.Listener.OnIgnore") + ncalls("core.Listener.OnDropped") == 1 && ncalls("core.Listener.OnSuccess") == ite(callres("funcvalue:grpc.interceptorConfig.serverResponseClassifer", 0, 0) == 0, 1, 0) && ncalls("core.Listener.OnIgnore") == ite(callres("funcvalue:grpc.interceptorConfig.serverResponseClassifer", 0, 0) == 1, 1, 0) && ncalls("core.Listener.OnDropped") == ite(callres("funcvalue:grpc.interceptorConfig.serverResponseClassifer", 0, 0) == 2, 1, 0) && ncallsOn(callres("core.Limiter.Acquire", 0, 0), "OnSuccess") + ncallsOn(callres("core.Limiter.Acquire", 0, 0), "OnIgnore") + ncallsOn(callres("core.Limiter.Acquire", 0, 0), "OnDropped") == 1
+//@   safety[C14]
+
+//@ func UnaryClientInterceptor$1
+//@   requires cfg: unaryCfgOK(cfg) && invoker != nil
+//@   ensures[C14] acquires_first: ncalls("core.Limiter.Acquire") == 1 && callrecv("core.Limiter.Acquire", 0) == cfg.limiter && callarg("core.Limiter.Acquire", 0, 0) == ctx
+//@   ensures[C14] refused_runs_nothing: !callres("core.Limiter.Acquire", 0, 1) ==> ncalls("funcvalue:param:google.golang.org/grpc.UnaryInvoker:invoker") == 0 && ncalls("core.Listener.OnSuccess") == 0 && ncalls("core.Listener.OnIgnore") == 0 && ncalls("core.Listener.OnDropped") == 0 && ncalls("funcvalue:grpc.interceptorConfig.clientResponseClassifer") == 0
+//@   ensures[C14] refused_status: !callres("core.Limiter.Acquire", 0, 1) ==> ncalls("funcvalue:grpc.interceptorConfig.limitExceededResponseClassifier") == 1 && callarg("funcvalue:grpc.interceptorConfig.limitExceededResponseClassifier", 0, 1) == method && callarg("funcvalue:grpc.interceptorConfig.limitExceededResponseClassifier", 0, 2) == req && callarg("funcvalue:grpc.interceptorConfig.limitExceededResponseClassifier", 0, 3) == cfg.limiter && ncalls("status.Error") == 1 && callarg("status.Error", 0, 0) == callres("funcvalue:grpc.interceptorConfig.limitExceededResponseClassifier", 0, 1) && result == callres("status.Error", 0, 0)
+//@   ensures[C14] granted_runs_invoker_once: callres("core.Limiter.Acquire", 0, 1) ==> ncalls("funcvalue:param:google.golang.org/grpc.UnaryInvoker:invoker") == 1 && callarg("funcvalue:param:google.golang.org/grpc.UnaryInvoker:invoker", 0, 0) == ctx && callarg("funcvalue:param:google.golang.org/grpc.UnaryInvoker:invoker", 0, 1) == method && callarg("funcvalue:param:google.golang.org/grpc.UnaryInvoker:invoker", 0, 2) == req && callarg("funcvalue:param:google.golang.org/grpc.UnaryInvoker:invoker", 0, 3) == reply && callarg("funcvalue:param:google.golang.org/grpc.UnaryInvoker:invoker", 0, 4) == cc && result == callres("funcvalue:param:google.golang.org/grpc.UnaryInvoker:invoker", 0, 0)
+//@   ensures[C14] classified_by_client_classifier: callres("core.Limiter.Acquire", 0, 1) ==> ncalls("funcvalue:grpc.interceptorConfig.clientResponseClassifer") == 1 && callarg("funcvalue:grpc.interceptorConfig.clientResponseClassifer", 0, 1) == method && callarg("funcvalue:grpc.interceptorConfig.clientResponseClassifer", 0, 2) == req && callarg("funcvalue:grpc.interceptorConfig.clientResponseClassifer", 0, 3) == reply && callarg("funcvalue:grpc.interceptorConfig.clientResponseClassifer", 0, 4) == result
+//@   ensures[C14] completed_exactly_once_as_classified: callres("core.Limiter.Acquire", 0, 1) && 0 <= callres("funcvalue:grpc.interceptorConfig.clientResponseClassifer", 0, 0) && callres("funcvalue:grpc.interceptorConfig.clientResponseClassifer", 0, 0) <= 2 ==> ncalls("core.Listener.OnSuccess") == ite(callres("funcvalue:grpc.interceptorConfig.clientResponseClassifer", 0, 0) == 0, 1, 0) && ncalls("core.Listener.OnIgnore") == ite(callres("funcvalue:grpc.interceptorConfig.clientResponseClassifer", 0, 0) == 1, 1, 0) && ncalls("core.Listener.OnDropped") == ite(callres("funcvalue:grpc.interceptorConfig.clientResponseClassifer", 0, 0) == 2, 1, 0) && ncallsOn(callres("core.Limiter.Acquire", 0, 0), "OnSuccess") + ncallsOn(callres("core.Limiter.Acquire", 0, 0), "OnIgnore") + ncallsOn(callres("core.Limiter.Acquire", 0, 0), "OnDropped") == 1
+//@   safety[C14]
+
+//@ define streamCfgOK(s *grpc.ssRecvWrapper) bool = s.cfg != nil && s.info != nil && s.ServerStream != nil && s.cfg.recvLimiter != nil && s.cfg.sendLimiter != nil && s.cfg.recvLimitExceededResponseClassifier != nil && s.cfg.sendLimitExceededResponseClassifier != nil && s.cfg.serverResponseClassifer != nil && s.cfg.clientResponseClassifer != nil
+
+//@ func (*ssRecvWrapper).RecvMsg
+//@   requires cfg: streamCfgOK(s)
+//@   ensures[C14] gates_on_receive_limiter: ncalls("core.Limiter.Acquire") == 1 && callrecv("core.Limiter.Acquire", 0) == s.cfg.recvLimiter
+//@   ensures[C14] refused_runs_nothing: !callres("core.Limiter.Acquire", 0, 1) ==> ncalls("google.golang.org/grpc.ServerStream.RecvMsg") == 0 && ncalls("core.Listener.OnSuccess") == 0 && ncalls("core.Listener.OnIgnore") == 0 && ncalls("core.Listener.OnDropped") == 0
+//@   ensures[C14] refused_status: !callres("core.Limiter.Acquire", 0, 1) ==> ncalls("funcvalue:grpc.streamInterceptorConfig.recvLimitExceededResponseClassifier") == 1 && ncalls("funcvalue:grpc.streamInterceptorConfig.sendLimitExceededResponseClassifier") == 0 && callarg("funcvalue:grpc.streamInterceptorConfig.recvLimitExceededResponseClassifier", 0, 1) == s.info.FullMethod && callarg("funcvalue:grpc.streamInterceptorConfig.recvLimitExceededResponseClassifier", 0, 3) == s.cfg.recvLimiter && ncalls("status.Error") == 1 && callarg("status.Error", 0, 0) == callres("funcvalue:grpc.streamInterceptorConfig.recvLimitExceededResponseClassifier", 0, 1) && result == callres("status.Error", 0, 0)
+//@   ensures[C14] granted_receives_once: callres("core.Limiter.Acquire", 0, 1) ==> ncalls("google.golang.org/grpc.ServerStream.RecvMsg") == 1 && callrecv("google.golang.org/grpc.ServerStream.RecvMsg", 0) == s.ServerStream && callarg("google.golang.org/grpc.ServerStream.RecvMsg", 0, 0) == m && result == callres("google.golang.org/grpc.ServerStream.RecvMsg", 0, 0)
+//@   ensures[C14] no_error_is_success: callres("core.Limiter.Acquire", 0, 1) && result == nil ==> ncalls("core.Listener.OnSuccess") == 1 && ncalls("core.Listener.OnIgnore") == 0 && ncalls("core.Listener.OnDropped") == 0 && ncalls("funcvalue:grpc.streamInterceptorConfig.serverResponseClassifer") == 0
+//@   ensures[C14] error_is_classified: callres("core.Limiter.Acquire", 0, 1) && result != nil ==> ncalls("funcvalue:grpc.streamInterceptorConfig.serverResponseClassifer") == 1 && callarg("funcvalue:grpc.streamInterceptorConfig.serverResponseClassifer", 0, 3) == result && (0 <= callres("funcvalue:grpc.streamInterceptorConfig.serverResponseClassifer", 0, 0) && callres("funcvalue:grpc.streamInterceptorConfig.serverResponseClassifer", 0, 0) <= 2 ==> ncalls("core.Listener.OnSuccess") == ite(callres("funcvalue:grpc.streamInterceptorConfig.serverResponseClassifer", 0, 0) == 0, 1, 0) && ncalls("core.Listener.OnIgnore") == ite(callres("funcvalue:grpc.streamInterceptorConfig.serverResponseClassifer", 0, 0) == 1, 1, 0) && ncalls("core.Listener.OnDropped") == ite(callres("funcvalue:grpc.streamInterceptorConfig.serverResponseClassifer", 0, 0) == 2, 1, 0))
+//@   safety[C14]
+
+//@ func (*ssRecvWrapper).SendMsg
+//@   requires cfg: streamCfgOK(s)
+//@   ensures[C14] gates_on_send_limiter: ncalls("core.Limiter.Acquire") == 1 && callrecv("core.Limiter.Acquire", 0) == s.cfg.sendLimiter
+//@   ensures[C14] refused_runs_nothing: !callres("core.Limiter.Acquire", 0, 1) ==> ncalls("google.golang.org/grpc.ServerStream.SendMsg") == 0 && ncalls("core.Listener.OnSuccess") == 0 && ncalls("core.Listener.OnIgnore") == 0 && ncalls("core.Listener.OnDropped") == 0
+//@   ensures[C14] refused_status: !callres("core.Limiter.Acquire", 0, 1) ==> ncalls("funcvalue:grpc.streamInterceptorConfig.sendLimitExceededResponseClassifier") == 1 && ncalls("funcvalue:grpc.streamInterceptorConfig.recvLimitExceededResponseClassifier") == 0 && callarg("funcvalue:grpc.streamInterceptorConfig.sendLimitExceededResponseClassifier", 0, 1) == s.info.FullMethod && callarg("funcvalue:grpc.streamInterceptorConfig.sendLimitExceededResponseClassifier", 0, 3) == s.cfg.sendLimiter && ncalls("status.Error") == 1 && callarg("status.Error", 0, 0) == callres("funcvalue:grpc.streamInterceptorConfig.sendLimitExceededResponseClassifier", 0, 1) && result == callres("status.Error", 0, 0)
+//@   ensures[C14] granted_sends_once: callres("core.Limiter.Acquire", 0, 1) ==> ncalls("google.golang.org/grpc.ServerStream.SendMsg") == 1 && callrecv("google.golang.org/grpc.ServerStream.SendMsg", 0) == s.ServerStream && callarg("google.golang.org/grpc.ServerStream.SendMsg", 0, 0) == m && result == callres("google.golang.org/grpc.ServerStream.SendMsg", 0, 0)
+//@   ensures[C14] no_error_is_success: callres("core.Limiter.Acquire", 0, 1) && result == nil ==> ncalls("core.Listener.OnSuccess") == 1 && ncalls("core.Listener.OnIgnore") == 0 && ncalls("core.Listener.OnDropped") == 0
+//@   ensures[C14] error_is_classified: callres("core.Limiter.Acquire", 0, 1) && result != nil ==> ncalls("funcvalue:grpc.streamInterceptorConfig.clientResponseClassifer") == 1 && callarg("funcvalue:grpc.streamInterceptorConfig.clientResponseClassifer", 0, 3) == result && (0 <= callres("funcvalue:grpc.streamInterceptorConfig.clientResponseClassifer", 0, 0) && callres("funcvalue:grpc.streamInterceptorConfig.clientResponseClassifer", 0, 0) <= 2 ==> ncalls("core.Listener.OnSuccess") == ite(callres("funcvalue:grpc.streamInterceptorConfig.clientResponseClassifer", 0, 0) == 0, 1, 0) && ncalls("core.Listener.OnIgnore") == ite(callres("funcvalue:grpc.streamInterceptorConfig.clientResponseClassifer", 0, 0) == 1, 1, 0) && ncalls("core.Listener.OnDropped") == ite(callres("funcvalue:grpc.streamInterceptorConfig.clientResponseClassifer", 0, 0) == 2, 1, 0))
+//@   safety[C14]
+
+//@ func StreamServerInterceptor$1
+//@   requires args: handler != nil
+//@   ensures[C14] wraps_stream: ncalls("funcvalue:param:google.golang.org/grpc.StreamHandler:handler") == 1 && callarg("funcvalue:param:google.golang.org/grpc.StreamHandler:handler", 0, 0) == srv && dyntype(callarg("funcvalue:param:google.golang.org/grpc.StreamHandler:handler", 0, 1), "*grpc.ssRecvWrapper") && as(callarg("funcvalue:param:google.golang.org/grpc.StreamHandler:handler", 0, 1), "*grpc.ssRecvWrapper").ServerStream == ss && as(callarg("funcvalue:param:google.golang.org/grpc.StreamHandler:handler", 0, 1), "*grpc.ssRecvWrapper").info == info && as(callarg("funcvalue:param:google.golang.org/grpc.StreamHandler:handler", 0, 1), "*grpc.ssRecvWrapper").cfg == cfg && result == callres("funcvalue:param:google.golang.org/grpc.StreamHandler:handler", 0, 0)
+
+// Options set exactly their field.
+//@ func WithLimiter$1
+//@   requires cfg: cfg != nil
+//@   ensures[C14] sets: cfg.limiter == limiter && cfg.limitExceededResponseClassifier == old(cfg.limitExceededResponseClassifier) && cfg.serverResponseClassifer == old(cfg.serverResponseClassifer) && cfg.clientResponseClassifer == old(cfg.clientResponseClassifer)
+//@ func WithLimitExceededResponseClassifier$1
+//@   requires cfg: cfg != nil
+//@   ensures[C14] sets: cfg.limitExceededResponseClassifier == classifier && cfg.limiter == old(cfg.limiter) && cfg.serverResponseClassifer == old(cfg.serverResponseClassifer) && cfg.clientResponseClassifer == old(cfg.clientResponseClassifer)
+//@ func WithClientResponseTypeClassifier$1
+//@   requires cfg: cfg != nil
+//@   ensures[C14] sets: cfg.clientResponseClassifer == classifier && cfg.limiter == old(cfg.limiter) && cfg.serverResponseClassifer == old(cfg.serverResponseClassifer) && cfg.limitExceededResponseClassifier == old(cfg.limitExceededResponseClassifier)
+//@ func WithServerResponseTypeClassifier$1
+//@   requires cfg: cfg != nil
+//@   ensures[C14] sets: cfg.serverResponseClassifer == classifier && cfg.limiter == old(cfg.limiter) && cfg.clientResponseClassifer == old(cfg.clientResponseClassifer) && cfg.limitExceededResponseClassifier == old(cfg.limitExceededResponseClassifier)
+//@ func WithStreamSendLimiter$1
+//@   requires cfg: cfg != nil
+//@   ensures[C14] sets: cfg.sendLimiter == limiter && cfg.recvLimiter == old(cfg.recvLimiter)
+//@ func WithStreamRecvLimiter$1
+//@   requires cfg: cfg != nil
+//@   ensures[C14] sets: cfg.recvLimiter == limiter && cfg.sendLimiter == old(cfg.sendLimiter)
+//@ func WithStreamSendLimitExceededResponseClassifier$1
+//@   requires cfg: cfg != nil
+//@   ensures[C14] sets: cfg.sendLimitExceededResponseClassifier == classifier && cfg.recvLimitExceededResponseClassifier == old(cfg.recvLimitExceededResponseClassifier)
+//@ func WithStreamRecvLimitExceededResponseClassifier$1
+//@   requires cfg: cfg != nil
+//@   ensures[C14] sets: cfg.recvLimitExceededResponseClassifier == classifier && cfg.sendLimitExceededResponseClassifier == old(cfg.sendLimitExceededResponseClassifier)
+//@ func WithStreamClientResponseTypeClassifier$1
+//@   requires cfg: cfg != nil
+//@   ensures[C14] sets: cfg.clientResponseClassifer == classifier && cfg.serverResponseClassifer == old(cfg.serverResponseClassifer)
+//@ func WithStreamServerResponseTypeClassifier$1
+//@   requires cfg: cfg != nil
+//@   ensures[C14] sets: cfg.serverResponseClassifer == classifier && cfg.clientResponseClassifer == old(cfg.clientResponseClassifer)
+
+// Default classifiers.
+//@ func defaultClientResponseClassifier
+//@   ensures[C14] rule: result == ite(err != nil, 2, 0)
+//@ func defaultServerResponseClassifier
+//@   ensures[C14] rule: result == ite(err != nil, 2, 0)
+//@ func defaultStreamClientResponseClassifier
+//@   ensures[C14] rule: result == ite(err != nil, 2, 0)
+//@ func defaultStreamServerResponseClassifier
+//@   ensures[C14] rule: result == ite(err != nil, 2, 0)
+//@ func defaultLimitExceededResponseClassifier
+//@   ensures[C14] resource_exhausted: ret1 == 8 && ret2 != nil && ret0 == nil
